@@ -19,7 +19,7 @@ from pathlib import Path
 
 VERIF = Path(__file__).resolve().parent.parent
 SPEC_DIR = VERIF / "spec"
-WORK = VERIF / "work"
+WORK = Path(os.environ.get("VERIF_WORK_DIR", VERIF / "work"))
 JAR = "/opt/veriftools/tla/tla2tools.jar"
 DEPS = "/opt/veriftools/tla/CommunityModules-deps.jar"
 
